@@ -361,6 +361,8 @@ def generated(ctx, rng):
 def main():
     ctx = vlib.Ctx('C09')
     vlib.proof_phase(ctx, extra_targets=['Extract/ExtractVirtualPtr.vo'])
+    # the constructor from an object and final(), as translated from core.hpp on this run (Gen/GenVptr.v)
+    vlib.proof_phase_extra(ctx, 'Properties_C09_source')
     mdl, log1 = vlib.ocaml_driver('virtualptr_model', 'Extract/ExtractVirtualPtr.vo', ['ocaml/virtualptr_driver.ml'])
     if not mdl:
         ctx.broken.append('model driver does not build: ' + log1[-300:])
